@@ -13,7 +13,7 @@ LEVEL_TEXT = ("AuthFlow.tla models the calls protocol handlers make into the pat
               "against a real core.Core whose path manager's authManager is wrapped by a recorder; TLC evaluates the statement on "
               "the recorded Authenticate calls, reloads and the attachment read from the path manager's API; 'admitted' is C01's "
               "statement formula over the configured users")
-LEVEL_NOTE = ("routes: direct path-manager calls (FindPathConf, AddPublisher with ConfToCompare), real clients for RTSP, RTMP, SRT, MoQ over native QUIC (publish and read), WebRTC WHIP/WHEP (every credential placement at HTTP level; real sessions with the repository's WHIP client over loopback ICE: 9 in quick, the whole space in thorough), HLS (read, client IP through the trusted proxy); "
+LEVEL_NOTE = ("routes: direct path-manager calls (FindPathConf, AddPublisher with ConfToCompare), real clients for RTSP, RTMP, SRT, MoQ over native QUIC (publish and read), WebRTC WHIP/WHEP (every credential placement at HTTP level; real sessions with the repository's WHIP client over loopback ICE: 9 in quick, the whole space in thorough), HLS (read); HLS and WebRTC both behind the trusted proxy 127.0.0.1 (client IP = forwarded address) and, on a second Core, with an empty trusted-proxy list (client IP = TCP peer, forged X-Forwarded-For / X-Real-IP); "
               "MoQ over WebTransport, RTSPS and RTMPS are not bound; reload between authorization and attachment (none / another entry / non-hot field / only a hot-reloadable "
               "field of the same entry / name re-homed to a new exact entry; effect measured at the path manager) is "
               "client-driven (RTSP: ANNOUNCE..RECORD, RTMP / SRT: accepted publish request..first tracks); one fresh path name per scenario")
@@ -25,6 +25,9 @@ PKG = "./internal/core/"
 def _full_wanted(ctx, x, rep):
     """WebRTC sessions over loopback ICE take seconds each: a handful in the quick tier, one pass of the
     whole space (client address inside / outside the allowed host) in the thorough tier"""
+    if x["proxy"] == "none":
+        # no trusted proxy, forged forwarding headers: the IP-restricted user and an unrestricted one
+        return rep == 0 and x["reload"] == "none" and x["cls"] == "a" and (ctx.thorough or x["cred"] in ("dave", "alice"))
     if ctx.thorough:
         return rep == 0 and x["ip"] != "10.0.0.50"
     key = (x["action"], x["cred"], x["cls"], x["reload"], x["ip"])
@@ -67,7 +70,7 @@ def run(ctx):
             if x["mode"] == "http" and rep > 0:
                 continue
             cid = len(cases) + 1
-            c = {k: x[k] for k in ("proto", "mode", "place", "action", "cls", "cred", "user", "pass", "ip", "reload")}
+            c = {k: x[k] for k in ("proto", "mode", "place", "action", "cls", "cred", "user", "pass", "ip", "reload", "proxy")}
             c["id"] = cid
             c["name"] = "vf%s%dr%ds%s" % (x["cls"], cid, rep, ctx.seed)
             cases.append(c)
@@ -92,7 +95,7 @@ def run(ctx):
             continue
         seen.add(bad["l"])
         x = recs[bad["l"] - 1]
-        rec = {k: x[k] for k in ("proto", "mode", "place", "action", "cls", "cred", "ip", "reload")}
+        rec = {k: x[k] for k in ("proto", "mode", "place", "action", "cls", "cred", "ip", "reload", "proxy")}
         rec["attached"] = x["attached"]
         ctx.violation(rec, "%s %s of path %s (class %s) with credentials %s (placement %s) from %s, reload between authorization and attachment: %s: "
                            "the client is attached although the statement's conditions do not hold; Authenticate calls and "
